@@ -294,3 +294,8 @@ func TestSub_barcodes(t *testing.T)    { vk.RunRapid(t, subBarcodes) }
 func TestSub_adversarial(t *testing.T) { vk.RunRapid(t, subAdversarial) }
 
 func TestReplay(t *testing.T) { vk.Replay(t) }
+
+// native coverage-guided fuzzing over the same generator and oracle (thorough tier)
+var subNativeFuzz = vk.Register(&vk.Sub[Case]{Name: "adversarial_fuzz", Gen: genAdversarial, Check: check})
+
+func FuzzSub_adversarial_fuzz(f *testing.F) { vk.RunFuzz(f, subNativeFuzz) }
